@@ -195,3 +195,61 @@ Theorem C10_consts_twist_and_frobenius :
   zv xiTo2PSquaredMinus2Over3 = zv (fmul fp_ops xiToPSquaredMinus1Over3 xiToPSquaredMinus1Over3).
 Proof. exact consts_twist_and_frobenius. Qed.
 Print Assumptions C10_consts_twist_and_frobenius.
+
+(* ---- the amd64 routines of the base field, translated from gfp.s on every run (T1, Gen/GfpAsm.v)
+   and given the machine semantics of Models/Asm.v: for ALL limbs, not a sample *)
+From DosVerif Require Import Models.Asm Gen.GfpAsm Proofs.AsmProofs.
+Local Open Scope Z_scope.
+
+Theorem C10_asm_gfpAdd : forall a0 a1 a2 a3 b0 b1 b2 b3,
+  0 <= a0 < W -> 0 <= a1 < W -> 0 <= a2 < W -> 0 <= a3 < W ->
+  0 <= b0 < W -> 0 <= b1 < W -> 0 <= b2 < W -> 0 <= b3 < W ->
+  lval [a0;a1;a2;a3] < lval asm_p2 -> lval [b0;b1;b2;b3] < lval asm_p2 ->
+  exists r, run4 gfpAdd asm_p2 asm_np [a0;a1;a2;a3] [b0;b1;b2;b3] = Some r /\
+            Forall (fun w => 0 <= w < W) r /\
+            lval r = (lval [a0;a1;a2;a3] + lval [b0;b1;b2;b3]) mod lval asm_p2.
+Proof. exact gfpAdd_correct. Qed.
+Print Assumptions C10_asm_gfpAdd.
+
+Theorem C10_asm_gfpSub : forall a0 a1 a2 a3 b0 b1 b2 b3,
+  0 <= a0 < W -> 0 <= a1 < W -> 0 <= a2 < W -> 0 <= a3 < W ->
+  0 <= b0 < W -> 0 <= b1 < W -> 0 <= b2 < W -> 0 <= b3 < W ->
+  lval [a0;a1;a2;a3] < lval asm_p2 -> lval [b0;b1;b2;b3] < lval asm_p2 ->
+  exists r, run4 gfpSub asm_p2 asm_np [a0;a1;a2;a3] [b0;b1;b2;b3] = Some r /\
+            Forall (fun w => 0 <= w < W) r /\
+            lval r = (lval [a0;a1;a2;a3] - lval [b0;b1;b2;b3]) mod lval asm_p2.
+Proof. exact gfpSub_correct. Qed.
+Print Assumptions C10_asm_gfpSub.
+
+Theorem C10_asm_gfpNeg : forall a0 a1 a2 a3 b0 b1 b2 b3,
+  0 <= a0 < W -> 0 <= a1 < W -> 0 <= a2 < W -> 0 <= a3 < W ->
+  lval [a0;a1;a2;a3] < lval asm_p2 ->
+  exists r, run4 gfpNeg asm_p2 asm_np [a0;a1;a2;a3] [b0;b1;b2;b3] = Some r /\
+            Forall (fun w => 0 <= w < W) r /\
+            lval r = (- lval [a0;a1;a2;a3]) mod lval asm_p2.
+Proof. exact gfpNeg_correct. Qed.
+Print Assumptions C10_asm_gfpNeg.
+
+(* Montgomery multiplication, MULQ path: the double-width product is proved for all limbs; the
+   reduction that follows is modelled, executed and compared limb for limb (not proved): PARTIAL *)
+Theorem C10_asm_gfpMul_product_partial : forall a0 a1 a2 a3 b0 b1 b2 b3,
+  0 <= a0 < W -> 0 <= a1 < W -> 0 <= a2 < W -> 0 <= a3 < W ->
+  0 <= b0 < W -> 0 <= b1 < W -> 0 <= b2 < W -> 0 <= b3 < W ->
+  gfpMul_nobmi2 = nobmi2_mul_part ++ concat (skipn 15 gfpMul_nobmi2_segs) /\
+  exists st, exec nobmi2_mul_part (init_state asm_p2 asm_np [a0;a1;a2;a3] [b0;b1;b2;b3]) = Some st /\
+             Forall (fun w => 0 <= w < W) (vals stkT (mem st)) /\
+             lval (vals stkT (mem st)) = lval [a0;a1;a2;a3] * lval [b0;b1;b2;b3].
+Proof. intros. split. exact nobmi2_split. apply gfpMul_nobmi2_product_partial; assumption. Qed.
+Print Assumptions C10_asm_gfpMul_product_partial.
+
+(* the arithmetic core of the reduction, and the constants it is used with *)
+Theorem C10_asm_montgomery_core : forall T m P N' R,
+  0 < R -> (N' * P + 1) mod R = 0 -> m = ((T mod R) * N') mod R -> (T + m * P) mod R = 0.
+Proof. exact montgomery_low. Qed.
+Print Assumptions C10_asm_montgomery_core.
+
+Theorem C10_asm_constants :
+  (lval asm_np * lval asm_p2 + 1) mod W ^ 4 = 0 /\ lval asm_p2 = src_p /\
+  forallb alias_safe [gfpAdd; gfpSub; gfpNeg; gfpMul_nobmi2; gfpMul_bmi2] = true.
+Proof. split; [exact asm_np_ok|]. split; [vm_compute; reflexivity | exact alias_safe_all]. Qed.
+Print Assumptions C10_asm_constants.
